@@ -1,4 +1,6 @@
 import OasisProofs.Helpers.MkvsProofDeep
+import OasisProofs.Helpers.MkvsProofIter
+import OasisProofs.Helpers.MkvsProofIterSound
 /-
 C04 — Merkle proofs are complete and cannot be made to lie.
 
@@ -27,7 +29,7 @@ executable `SubT`) is evaluated against the model tree, and the answers of a rea
 are compared with the full tree's.
 -/
 namespace OasisProofs.C04
-open OasisModel.Mkvs OasisProofs.Mkvs OasisProofs.MkvsProof
+open OasisModel.Mkvs OasisProofs.Mkvs OasisProofs.MkvsProof OasisProofs.MkvsIter
 
 /-! ### Soundness -/
 
@@ -140,6 +142,29 @@ theorem remote_read_sound {H : Bytes → Bytes} (hinj : Function.Injective H) (h
   sub_getAux (noColl_of_injective hinj ([] :: trieInputs H T)) List.mem_cons_self k _ T 0 a
     (fun _ hx => List.mem_cons_of_mem _ hx) (remote_state_sound hinj hlen T hwf hb steps) hg
 
+/-- **Iteration from verified nodes cannot lie and cannot skip.** A client that iterates (Seek `key`, then
+`Next`) over the tree rebuilt from an accepted proof — or over whatever it holds after any sequence of
+adversarial responses — and obtains `n` items (or reaches the end) without having to dereference a
+hash-only pointer, has obtained exactly the first `n` items with key ≥ `key` of the real tree: every
+yielded key/value is a true one and no true key in the range is missing. (`ptIterate` is iterator.go's
+machine on verified nodes, `OasisModel/Mkvs/ProofIter.lean`.) -/
+theorem iterate_sound {H : Bytes → Bytes} (hinj : Function.Injective H) (hlen : ∀ x, (H x).length = 32)
+    {root : Bytes} {p : MProof} {s : PT} (h : verifyProof H root p = .ok s)
+    (T : Trie) (hwf : WF T) (hb : ContentsBounded T.toList) (hr : hashWith H T = root)
+    (key : Bytes) (n : Nat) (items : List KV) (hit : ptIterate (H []) s key n = some items) :
+    items = (SMap.seekGE T.toList key).take n := by
+  rw [seekGE_eq_firstGE (wf_sorted hwf)]
+  exact ptIterate_exact hinj s T hwf (verify_sound hinj hlen h T hwf hb hr) key n items hit
+
+/-- The same for a remote reader after any session of responses. -/
+theorem remote_iterate_sound {H : Bytes → Bytes} (hinj : Function.Injective H) (hlen : ∀ x, (H x).length = 32)
+    (T : Trie) (hwf : WF T) (hb : ContentsBounded T.toList) (steps : List (Bytes × MProof))
+    (key : Bytes) (n : Nat) (items : List KV)
+    (hit : ptIterate (H []) (clientRun H (hashWith H T) steps) key n = some items) :
+    items = (SMap.seekGE T.toList key).take n := by
+  rw [seekGE_eq_firstGE (wf_sorted hwf)]
+  exact ptIterate_exact hinj _ T hwf (remote_state_sound hinj hlen T hwf hb steps) key n items hit
+
 /-! ### Completeness -/
 
 /-- **Completeness, exact form.** For ANY set of included nodes (lookup path, prefix fetch,
@@ -189,6 +214,45 @@ theorem lookup_proof_complete_shallow {H : Bytes → Bytes} (hlen : ∀ x, (H x)
       s.getAux (H []) k 0 = some (T.get k) :=
   lookup_proof_complete_partial hlen ver hver sib k T hwf hb
     (Nat.le_trans (proofDepth_le_ptrDepth _ _ _) hd)
+
+/-- **Iteration proofs resolve every item iterated over.** The proof `SyncIterate` builds for seek key
+`key` and `prefetch` further items (either version) verifies against the root, and a lookup of each of
+the first `prefetch + 1` items with key ≥ `key` in the rebuilt tree answers with the item's value —
+for every tree within the depth bound. (The iterator model is `OasisModel/Mkvs/Chunk.lean`
+`itSeek`/`itNext`, compared byte for byte with real `SyncIterate` responses; its ordering correctness
+comes from `OasisProofs/Helpers/MkvsIterMachine.lean` through `MkvsIterBridge.lean`.) -/
+theorem iterate_proof_complete {H : Bytes → Bytes} (hlen : ∀ x, (H x).length = 32) (ver : Nat) (hver : ver ≤ 1)
+    (key : Bytes) (prefetch : Nat) (T : Trie) (hwf : WF T) (hb : ContentsBounded T.toList)
+    (hd : (annotate H T).ptrDepth ≤ maxProofDepth) :
+    ∃ s, verifyProof H (hashWith H T) (proofIterate (H []) ver key prefetch (annotate H T)) = .ok s ∧
+      ∀ kv ∈ (SMap.seekGE T.toList key).take (prefetch + 1), s.getAux (H []) kv.1 0 = some (some kv.2) := by
+  have hwf' : WF (annotate H T).erase := by rw [annotate_erase]; exact hwf
+  refine ⟨restrict ver (itAdvance ver prefetch (itSeek ver (annotate H T) key {})).b.incl (annotate H T), ?_, ?_⟩
+  · unfold proofIterate
+    exact build_verifies hlen ver hver _ T hwf hb hd
+  · intro kv hkv
+    rw [seekGE_eq_firstGE (wf_sorted hwf)] at hkv
+    have hv := proofIterate_visits ver (annotate H T) hwf' key prefetch kv (by rw [annotate_erase]; exact hkv)
+    exact visited_getAux (H []) ver hv hwf'
+
+/-- **Prefix proofs resolve every item asked about.** The proof `SyncGetPrefixes` builds for a list of
+prefixes and a limit verifies against the root and resolves every item the request covers
+(`askedOuter`: for each prefix in turn the items under it, until the limit is reached). -/
+theorem prefixes_proof_complete {H : Bytes → Bytes} (hlen : ∀ x, (H x).length = 32) (ver : Nat) (hver : ver ≤ 1)
+    (prefixes : List Bytes) (limit : Nat) (T : Trie) (hwf : WF T) (hb : ContentsBounded T.toList)
+    (hd : (annotate H T).ptrDepth ≤ maxProofDepth) :
+    ∃ s, verifyProof H (hashWith H T) (proofPrefixes (H []) ver prefixes limit (annotate H T)) = .ok s ∧
+      ∀ kv ∈ askedOuter limit T.toList prefixes 0, s.getAux (H []) kv.1 0 = some (some kv.2) := by
+  have hwf' : WF (annotate H T).erase := by rw [annotate_erase]; exact hwf
+  refine ⟨restrict ver (prefixOuter ver limit (annotate H T) ((annotate H T).count + 1) prefixes {} 0).incl
+    (annotate H T), ?_, ?_⟩
+  · unfold proofPrefixes
+    exact build_verifies hlen ver hver _ T hwf hb hd
+  · intro kv hkv
+    have hsp := prefixOuter_spec ver limit (annotate H T) hwf' ((annotate H T).count + 1)
+      (by rw [count_eq_length]; omega) prefixes {} 0
+    rw [annotate_erase] at hsp
+    exact visited_getAux (H []) ver (hsp.2 kv hkv) hwf'
 
 /- Full-strength statement that does NOT hold (hence `_partial` above): the depth hypothesis `hd`
 cannot be dropped. The tree accepts keys whose path is deeper than `maxProofDepth`; the honest
